@@ -227,10 +227,22 @@ dbl_QSdata *QScopy_prob_mpq_dbl (mpq_QSdata * p,
 	dbl_val = mpq_get_d(mpq_val);
 	EGcallD(dbl_QSset_param_EGlpNum(p2, QS_PARAM_SIMPLEX_MAX_TIME, dbl_val));
 	EGcallD(mpq_QSget_param_EGlpNum(p, QS_PARAM_OBJULIM, &mpq_val));
-	dbl_val = mpq_get_d(mpq_val);
+	/* an infinite limit stays infinite, as for the bounds */
+	if (mpq_equal (mpq_val, mpq_ILL_MAXDOUBLE))
+		dbl_val = dbl_ILL_MAXDOUBLE;
+	else if (mpq_equal (mpq_val, mpq_ILL_MINDOUBLE))
+		dbl_val = dbl_ILL_MINDOUBLE;
+	else
+		dbl_val = mpq_get_d(mpq_val);
 	EGcallD(dbl_QSset_param_EGlpNum(p2, QS_PARAM_OBJULIM, dbl_val));
 	EGcallD(mpq_QSget_param_EGlpNum(p, QS_PARAM_OBJLLIM, &mpq_val));
-	dbl_val = mpq_get_d(mpq_val);
+	/* an infinite limit stays infinite, as for the bounds */
+	if (mpq_equal (mpq_val, mpq_ILL_MAXDOUBLE))
+		dbl_val = dbl_ILL_MAXDOUBLE;
+	else if (mpq_equal (mpq_val, mpq_ILL_MINDOUBLE))
+		dbl_val = dbl_ILL_MINDOUBLE;
+	else
+		dbl_val = mpq_get_d(mpq_val);
 	EGcallD(dbl_QSset_param_EGlpNum(p2, QS_PARAM_OBJLLIM, dbl_val));
 	/* ending */
 	CLEANUP:
@@ -341,10 +353,22 @@ mpf_QSdata *QScopy_prob_mpq_mpf (mpq_QSdata * p,
 	mpf_set_q(mpf_val,mpq_val);
 	EGcallD(mpf_QSset_param_EGlpNum(p2, QS_PARAM_SIMPLEX_MAX_TIME, mpf_val));
 	EGcallD(mpq_QSget_param_EGlpNum(p, QS_PARAM_OBJULIM, &mpq_val));
-	mpf_set_q(mpf_val,mpq_val);
+	/* an infinite limit stays infinite, as for the bounds */
+	if (mpq_equal (mpq_val, mpq_ILL_MAXDOUBLE))
+		mpf_set (mpf_val, mpf_ILL_MAXDOUBLE);
+	else if (mpq_equal (mpq_val, mpq_ILL_MINDOUBLE))
+		mpf_set (mpf_val, mpf_ILL_MINDOUBLE);
+	else
+		mpf_set_q(mpf_val,mpq_val);
 	EGcallD(mpf_QSset_param_EGlpNum(p2, QS_PARAM_OBJULIM, mpf_val));
 	EGcallD(mpq_QSget_param_EGlpNum(p, QS_PARAM_OBJLLIM, &mpq_val));
-	mpf_set_q(mpf_val,mpq_val);
+	/* an infinite limit stays infinite, as for the bounds */
+	if (mpq_equal (mpq_val, mpq_ILL_MAXDOUBLE))
+		mpf_set (mpf_val, mpf_ILL_MAXDOUBLE);
+	else if (mpq_equal (mpq_val, mpq_ILL_MINDOUBLE))
+		mpf_set (mpf_val, mpf_ILL_MINDOUBLE);
+	else
+		mpf_set_q(mpf_val,mpq_val);
 	EGcallD(mpf_QSset_param_EGlpNum(p2, QS_PARAM_OBJLLIM, mpf_val));
 	/* ending */
 	CLEANUP:
